@@ -183,7 +183,14 @@ template< typename T, typename E>
       mArgCharPos       = 1;
       mCurrArgStringLen = ::strlen( mpArgV[ mArgIndex]);
 
-      if (mpArgV[ mArgIndex][ 0] == '-')
+      if ((mCurrArgStringLen == 1) && isCtrlChar( mpArgV[ mArgIndex][ 0]))
+      {
+         // a control character can also be the very first word: each line of
+         // an argument file starts an iteration of its own
+         mCurrElement.setControl( mArgIndex, 0, mpArgV[ mArgIndex][ 0]);
+         ++mArgIndex;
+         mArgCharPos = 0;
+      } else if (mpArgV[ mArgIndex][ 0] == '-')
       {
          if (mCurrArgStringLen == 1)
             throw argument_error( "single dash in argument list");
